@@ -23,7 +23,7 @@ RULE = ('cases = generated object-graph histories at the storage API (root + obj
         'from the pack time on (model reachability over generated references) loadBefore at every bound after the pack '
         'time, load, getTid, loadSerial agree; every later transaction iterates identically; later undos have the same '
         'outcome; re-pack to an earlier time changes nothing; evaluations = steps compared; non-trivial = a pack that '
-        'removed something (revision count or file size dropped) followed by >= 1 transaction; distinct by program hash')
+        'removed something (revision count or file size dropped) followed by >= 1 transaction; distinct by program hash; later additions: blob storages (FileStorage with blob directory, with and without pack_keep_old, blob wrapper over MappingStorage and over FileStorage), phased shapes (un-created object revived after the pack time; several revisions of one object undone in one transaction), garbage objects stored again, and the oracle that an object which did not load before a pack does not load after it')
 ASSUMPTIONS = ['excluded by construction (counted): plain re-linking of an object that is garbage in a committed state; '
                'touching objects that are unreachable; undo of transactions at or before the pack time',
                'a pack that raises and leaves the protected region unchanged is an allowed outcome (counted)',
